@@ -3547,9 +3547,16 @@ static Token *global_variable(Token *tok, Type *basety, VarAttr *attr) {
     if (!ty->name)
       error_tok(ty->name_pos, "variable name omitted");
 
-    Obj *var = new_gvar(get_ident(ty->name), ty);
+    // An extern declaration inherits the linkage of a visible prior
+    // declaration [https://www.sigbus.info/n1570#6.2.2p4].
+    char *name = get_ident(ty->name);
+    VarScope *prev = attr->is_extern ? find_var(ty->name) : NULL;
+    bool prev_static = prev && prev->var && !prev->var->is_function &&
+                       prev->var->is_static && !strcmp(prev->var->name, name);
+
+    Obj *var = new_gvar(name, ty);
     var->is_definition = !attr->is_extern;
-    var->is_static = attr->is_static;
+    var->is_static = attr->is_static || prev_static;
     var->is_tls = attr->is_tls;
     if (attr->align)
       var->align = attr->align;
